@@ -1,6 +1,7 @@
 /- Property C02: the property theorems (and nothing else). -/
 import Frugal.Proofs.ToWire
 import Frugal.Props.Instances
+import Frugal.Proofs.Strict
 namespace Frugal.C02
 open Frugal
 
@@ -31,6 +32,11 @@ theorem denotation_well_formed (S : Schema) (hS : S.ok = true) (ty : Ty) (v : Va
     (hnil : nilOK ty v = true) (ht : hasTy S ty v = true) (hf : sizesFit v = true) :
     wf (toWire S ty v) = true ∧ (toWire S ty v).tag = ty.wire :=
   ⟨toWire_wf S hS v ty hok hnil ht hf, toWire_tag S v ty hnil ht⟩
+
+/-- … and strictly so: every element / key / value code it carries is a protocol type code, empty
+    containers included (`wf` itself only asks for a non-negative int8 there, see Wire.lean) -/
+theorem codes_are_protocol_codes (S : Schema) (ty : Ty) (v : Val) : codesStrict (toWire S ty v) = true :=
+  toWire_codesStrict S v ty
 
 /-- the reference parser inverts `ser`: equal bytes denote equal Thrift values, and an independent
     parser reads the output back to the same value -/
